@@ -23,6 +23,8 @@ import re
 #   ("r", name, constr)             type reference with an optional constraint
 #   ("i", template, [actuals])      nested instantiation  P {BOOLEAN}
 #   ("v", kind, payload)            value: int / ref / bool / str / null
+#   ("n",)                          NULL written for a TYPE parameter (parsed as the value NULL; the fixer turns it into
+#                                   the type NULL before the specialization lookup)
 #   ("s", kw, [(id, actual)])       SEQUENCE / SET / CHOICE { ... }
 #   ("o", kw, size, actual)         SEQUENCE / SET [size constraint] OF element
 
@@ -48,6 +50,8 @@ def a_text(a):
     if k == "v":
         _, kind, p = a
         return {"int": lambda: str(p), "ref": lambda: p, "bool": lambda: "TRUE" if p else "FALSE", "str": lambda: '"%s"' % p, "null": lambda: "NULL", "hstr": lambda: "'%s'H" % p}[kind]()
+    if k == "n":
+        return "NULL"
     if k == "s":
         return "%s { %s }" % (a[1], ", ".join("%s %s" % (i, a_text(x)) for i, x in a[2]))
     if k == "o":
@@ -65,7 +69,7 @@ def a_keytext(a):
         return a[1]
     if k == "i":
         return a[1] + " {..}"
-    if k == "v":
+    if k in ("v", "n"):
         return a_text(a)
     if k == "s":
         return "%s { %s }" % (a[1], ", ".join("%s %s" % (i, a_keytext(x)) for i, x in a[2]))
@@ -108,6 +112,8 @@ def a_model(a, modidx=0):
         val = {"int": lambda: ["I", str(p)], "ref": lambda: ["F", str(modidx), "1", hexs(p)], "bool": lambda: ["T"] if p else ["X"],
                "str": lambda: ["S", hexs(p)], "null": lambda: ["N"], "hstr": lambda: ["S", hexs("'%s'H" % p)]}[kind]()
         return E("VALUE", "REFERENCE", "?", None, val, None, [], [])
+    if k == "n":
+        return E("TYPE", "NULL", None, None, None, None, [], [])
     if k == "s":
         ms = []
         for i, x in a[2]:
@@ -301,16 +307,31 @@ def param_directed():
     body, sites = carrier("P", lo)
     mods.append(mk("PaValueOctets", SUPPORT + "  P {OCTET STRING:d} ::= SEQUENCE { a OCTET STRING DEFAULT d, b INTEGER }\n" + body, "param", sites=sites))
     # a restricted string type with a mixed-case name as the governor: finding C10-param-governor-mixedcase-assert
-    mods.append(mk("PaGovString", "  P {IA5String:d} ::= SEQUENCE { a IA5String DEFAULT d, b INTEGER }\n  Use ::= SEQUENCE { s0 P {\"ab\"} }\n", "param"))
-    mods.append(mk("PaGovStringUnused", "  P {UTF8String:d} ::= SEQUENCE { a INTEGER }\n  A ::= INTEGER\n", "param"))
-    # the VALUE NULL as an actual parameter: finding C10-param-null-value-respecialized
-    mods.append(mk("PaNullValue", "  P {NULL:d} ::= SEQUENCE { a INTEGER }\n  Use ::= SEQUENCE { s0 P {NULL} }\n", "param"))
+    # (retired finding C10-param-governor-mixedcase-assert: the parser died; a refusal is not the repaired behaviour either)
+    lg = [[("v", "str", "ab")], [("v", "str", "cd")], [("v", "str", "ab")]]
+    body, sites = carrier("P", lg)
+    mods.append(mk("PaGovString", "  P {IA5String:d} ::= SEQUENCE { a IA5String DEFAULT d, b INTEGER }\n" + body, "param", sites=sites,
+                   accept="a builtin type with a mixed-case keyword as the governor of a value parameter"))
+    mods.append(mk("PaGovStringUnused", "  P {UTF8String:d} ::= SEQUENCE { a INTEGER }\n  Q {GeneralizedTime:t, ObjectDescriptor:o} ::= SEQUENCE { a INTEGER }\n  A ::= INTEGER\n", "param",
+                   accept="a builtin type with a mixed-case keyword as the governor of a value parameter"))
+    # the VALUE NULL as an actual parameter (retired finding C10-param-null-value-respecialized: the stored clone lost the
+    # value's type and every lookup of the same reference forked again): one specialization, also when the value is used
+    ln = [[("v", "null", None)], [("v", "null", None)], [("v", "null", None)]]
+    body, sites = carrier("P", ln)
+    mods.append(mk("PaNullValue", "  P {NULL:d} ::= SEQUENCE { a INTEGER }\n" + body, "param", sites=sites, accept="the value NULL as an actual parameter"))
+    body, sites = carrier("P", ln[:2])
+    mods.append(mk("PaNullValueUsed", "  P {NULL:d} ::= SEQUENCE { a INTEGER, b NULL DEFAULT d }\n" + body + "  Top ::= P {NULL}\n", "param", sites=sites,
+                   accept="the value NULL as an actual parameter, referenced in the template body"))
     # 6. the governor of a value parameter is itself a parameter; value-set parameters; NULL as an actual parameter
     mods.append(mk("PaGovParam", SUPPORT + "  P {T, T:v} ::= SEQUENCE { a T DEFAULT v, b BOOLEAN }\n  Use ::= SEQUENCE { s0 P {INTEGER, 5}, s1 P {BOOLEAN, TRUE} }\n", "param"))
     mods.append(mk("PaValueSet", SUPPORT + "  P {INTEGER:Allowed} ::= SEQUENCE { a INTEGER (Allowed) }\n  Use ::= SEQUENCE { s0 P {{1 | 2 | 3}}, s1 P {{1..10}}, s2 P {{1 | 2 | 3}} }\n", "param"))
     mods.append(mk("PaValueSetRef", SUPPORT + "  Vs INTEGER ::= { 1 | 2 | 3 }\n  P {INTEGER:Allowed} ::= SEQUENCE { a INTEGER (Allowed) }\n  Use ::= SEQUENCE { s0 P {{Vs}} }\n", "param"))
-    mods.append(mk("PaNullActual", "  P {T} ::= SEQUENCE { a T, b INTEGER }\n  Use ::= SEQUENCE { s0 P {NULL} }\n", "param"))
-    mods.append(mk("PaNullActualTop", "  P {T} ::= SEQUENCE { a T OPTIONAL }\n  B ::= P {NULL}\n", "param"))
+    # NULL for a TYPE parameter (retired finding C10-param-null-actual-assert): the type NULL, one specialization per distinct list
+    lt = [[("n",)], [("t", "BOOLEAN", None, None)], [("n",)]]
+    body, sites = carrier("P", lt)
+    mods.append(mk("PaNullActual", "  P {T} ::= SEQUENCE { a T, b INTEGER }\n" + body, "param", sites=sites, accept="NULL as the actual parameter of a type parameter"))
+    mods.append(mk("PaNullActualTop", "  P {T} ::= SEQUENCE { a T OPTIONAL }\n  B ::= P {NULL}\n  Q {T} ::= SEQUENCE { x P {T}, l SEQUENCE OF T }\n  C ::= Q {NULL}\n"
+                   "  R {T, INTEGER:n} ::= SEQUENCE { a T, b INTEGER (0..n) }\n  D ::= R {NULL, 5}\n", "param", accept="NULL as the actual parameter of a type parameter"))
     # 7. sites: assignment, OF element, CHOICE alternative, SET component, OPTIONAL / DEFAULT-less, tagged use, inside another template
     mods.append(mk("PaSites", SUPPORT + "  P {T} ::= SEQUENCE { a T }\n  A1 ::= P {INTEGER (0..7)}\n  A2 ::= [APPLICATION 2] P {IA5String (SIZE(1..8))}\n"
                    "  A3 ::= SEQUENCE OF P {BOOLEAN}\n  A4 ::= SET (SIZE(1..2)) OF P {INTEGER (1 | 3)}\n  A5 ::= CHOICE { x P {INTEGER (0..7)}, y P {Str (SIZE(2))} }\n"
@@ -570,7 +591,8 @@ def grammar_directed():
     g("BasicTypeId:EXTERNAL/EMBEDDED PDV/CHARACTER STRING", "GrUnsupportedTypes", "  T ::= SEQUENCE { e EXTERNAL OPTIONAL, p EMBEDDED PDV OPTIONAL, c CHARACTER STRING OPTIONAL, z INTEGER }")
     g("BasicString", "GrStringTypes", "  T ::= SEQUENCE { a BMPString, b GeneralString, c GraphicString, d IA5String, f NumericString, g PrintableString, "
       "h T61String, i TeletexString, j UniversalString, k UTF8String, l VideotexString, m VisibleString, n ObjectDescriptor }")
-    g("BasicString:ISO646String", "GrIso646", "  T ::= SEQUENCE { e ISO646String, z INTEGER }")
+    g("BasicString:ISO646String", "GrIso646", "  T ::= SEQUENCE { e ISO646String, z INTEGER }\n  U ::= ISO646String (SIZE(1..4))\n  V ::= ISO646String (FROM(\"a\"..\"f\"))",
+      accept="ISO646String")
     g("TaggedType:classes", "GrTags", "  A ::= [UNIVERSAL 29] IMPLICIT INTEGER\n  B ::= [APPLICATION 1] EXPLICIT BOOLEAN\n  C ::= [PRIVATE 2] NULL\n  D ::= [3] INTEGER\n"
       "  E ::= [4] IMPLICIT SEQUENCE { a [0] IMPLICIT INTEGER, b [1] EXPLICIT CHOICE { c NULL } }\n  F ::= [5] E\n  G ::= [APPLICATION 31] INTEGER\n  H ::= [APPLICATION 128] INTEGER")
     g("NamedNumberList/NamedBitList", "GrNamed", "  v3 INTEGER ::= 3\n  A ::= INTEGER { zero(0), neg(-1), ref(v3) }\n  B ::= BIT STRING { first(0), ref(v3) }\n  C ::= A (zero | neg)\n"
